@@ -10,6 +10,21 @@ COMMON_NOTE = ("Trusted: Lean 4.33 kernel + Mathlib v4.33; axioms limited to pro
                "The tie between the Lean definitions and /repo is re-established on every run: ")
 
 CLAIMED = {
+    "C05": dict(
+        text=("Lean theorems about an integer model (units of 1e-12 m, the grid DASSH rounds to) of the mesh "
+              "construction: for every sorted boundary list containing the core length, every positive step and every "
+              "length, the planes are strictly increasing, start at 0, end exactly at the core length, contain every "
+              "boundary, never step by more than the requirement, and the loop terminates within L iterations; with a "
+              "zero step it never advances (the hang); the step selection honours a user value at or below the limit, "
+              "ignores one above it, caps at 1 cm and never exceeds the limit.  The model is tied to the real Reactor "
+              "methods by differential correspondence on every run; full Reactor constructions run under a wall-clock "
+              "limit."),
+        note=COMMON_NOTE + ("T3 hand model + correspondence (stub Reactor objects: _setup_zpts/_check_dz, "
+                            "_setup_axial_region_bnds, _setup_overall_axial_mesh_req) and an implementation oracle on "
+                            "full constructions.  Steps that are not multiples of 1e-12 m, and float comparison effects, "
+                            "are covered by the oracle only."),
+        technique="Lean 4 proof (list induction, omega) over hand model + differential correspondence with the real methods",
+        design="5/C05"),
     "C08": dict(
         text=("Exhaustive over ring counts 2..20 (as the property states): the subchannel/pin tables the running code "
               "builds are dumped and the Lean kernel decides (decide +kernel, no axioms beyond the standard three) type "
